@@ -398,6 +398,8 @@ def staticReply (P : Program) (obs : Option Obs) : String :=
   -- Martian/ResolverStatic.lean: map calls of stages only)
   let frag := Program.mapsOfStages P && wellTypedGB P && acyclicB P.table && staticProgramOk P fqid &&
     decide (((staticProgram P fqid).2.map fun n => fqid n.path).Nodup)
+  -- … and of the refinement over the tree-shaped static phase (mapped pipelines, nested map calls)
+  let fragT := wellTypedTB P && acyclicB P.table && decide ((nodes.map fun n => fqid n.path).Nodup)
   let (denV, rtV) :=
     match obs with
     | none => ("na", "na")
@@ -406,6 +408,7 @@ def staticReply (P : Program) (obs : Option Obs) : String :=
       let ρ := storeOfNodes fqid nodes O
       let d := den P O
       let t := twoPhaseT P fqid ρ
+      -- (the tree theorem says den = twoPhaseT exactly when fragT; compared for every program anyway)
       let same := sameRun d t &&
         (!frag || sameRun d (twoPhaseM P fqid (storeOfNodes fqid (staticProgram P fqid).2 O)))
       let jobDiff := obs.jobs.findSome? fun j =>
@@ -417,7 +420,7 @@ def staticReply (P : Program) (obs : Option Obs) : String :=
         ((fieldsOf t.1).filter fun kv => !obs.skip.contains kv.1)
         ((fieldsOf obs.top).filter fun kv => !obs.skip.contains kv.1)
       (if same then "eq" else "neq", match jobDiff.orElse (fun _ => topDiff) with | some d => d | none => "ok")
-  "\t".intercalate ["static", s!"frag={if frag then 1 else 0}", "den=" ++ denV, "rt=" ++ rtV,
+  "\t".intercalate ["static", s!"frag={if frag || fragT then 1 else 0}", "den=" ++ denV, "rt=" ++ rtV,
     printStatic table s.1.exp nodes]
 
 end static
